@@ -390,9 +390,11 @@ class StructuredFieldMerger:
         merged_values = make_zeros(shape=(num_merged_values,))
         for i, loc in enumerate(self._piece_locations()):
             field_values = field_callback(loc)
-            if i == 0 and len(field_values.shape) > 1:
+            if i == 0:
                 field_values_shape = list(field_values.shape[1:])
-                merged_values = make_zeros(shape=tuple([num_merged_values] + field_values_shape))
+                merged_values = make_zeros(
+                    shape=tuple([num_merged_values] + field_values_shape), dtype=field_values.dtype
+                )
             piece_shape = (
                 self._piece_shape(loc)
                 if not is_point_field
